@@ -279,7 +279,10 @@ impl Sim for World {
         let mut st = self.st.borrow_mut();
         st.reads += 1;
         let gidx = st.reads;
-        let cost = st.clock.cost_read_ns;
+        // a monotonic clock with nanosecond resolution never shows the same instant to two
+        // successive reads of one thread: every read advances virtual time by at least 1 ns
+        // (an engine that compares `elapsed > limit` instead of `>=` must not hang here)
+        let cost = st.clock.cost_read_ns.max(1);
         st.now_ns += cost;
         // stall faults
         let mut jump = 0u64;
